@@ -528,21 +528,25 @@ theorem separator_newline_ends_list (cfg : PCfg) (n : Nat) (ts rest r r' : List 
   simp only [h1, hs, Bool.not_true, Bool.false_eq_true, if_false, h2]
   rw [list_stops_at_newline cfg n r r' h3]
 
-/-- the outcome of a parse, for examples -/
-def ParseRes.commands : ParseRes → Option Nat
-  | .ok cs => some cs.length
+/-- for the examples: a literal word token, and the shape of a list result (commands, tokens left) -/
+def litWord (s : String) : Tok := .word (s.toList.map fun c => Part.lit c false) []
+def PR.shape : PR (List Cmd) → Option (Nat × Nat)
+  | .ok cs r => some (cs.length, r.length)
   | _ => none
 
-/-- `read`-like line ending in `; n1` with `n1` an alias for nothing: one complete command line of one
-    command — not incomplete, the following line is not needed -/
-example : (parseLine { aliases := [("n1", "")], portable := false, eof := false }
-    "st 0; n1\n".toList).commands = some 1 := by decide
+/-- `st 0; n1` newline `:` newline, `n1` an alias for nothing: the list is the one command `st 0`, and the
+    newline and the whole next line are left (2 + 1 tokens) -/
+example : (pList { aliases := [("n1", "")], portable := false, eof := false } 12
+    [litWord "st", litWord "0", .op ";", litWord "n1", .nl, litWord ":", .nl]).shape = some (1, 3) := by
+  decide
 
-/-- with a comment-only value, and after `&&` (where the command does continue on the next line) -/
-example : (parseLine { aliases := [("n3", "# note")], portable := false, eof := false }
-    ":; n3\n".toList).commands = some 1
-  ∧ (parseLine { aliases := [("n1", "")], portable := false, eof := false }
-    ": && n1\n".toList).isIncomplete = true := by decide
+/-- the same with a comment-only value; and after `&&` the command does continue on the next line:
+    one command (the and-or list `: && :`) and only the final newline left -/
+example : (pList { aliases := [("n3", "# note")], portable := false, eof := false } 12
+    [litWord ":", .op ";", litWord "n3", .nl, litWord ":", .nl]).shape = some (1, 3)
+  ∧ (pList { aliases := [("n1", "")], portable := false, eof := false } 12
+    [litWord ":", .op "&&", litWord "n1", .nl, litWord ":", .nl]).shape = some (1, 1) := by
+  decide
 
 /-- lines read = lines needed: when the first line alone is a complete command for the parser in
     force, exactly that line is pulled -/
